@@ -156,10 +156,10 @@ theorem oracle_accounts_bound :
       i = 0 ∧ Mfi.Props.C09.before a.2 .pythOwnerCheck (Mfi.Props.C09.firstLoad a.2) = true) :=
   ⟨Mfi.Props.C09.every_account_bound, Mfi.Props.C09.pyth_owner_checked⟩
 
-/-- **the constraints the translator cannot classify are pinned verbatim**: 23 account constraints of the
+/-- **the constraints the translator cannot classify are pinned verbatim**: 22 account constraints of the
     integration / emissions / fee-destination / staked-settings structs have no recognised kind in the generated table
-    (venue account owner and mint bindings, obligation / spot-position checks, destination mints, the deleverage
-    receiver = risk admin test, ...). Their normalised text is fingerprinted by the translator on every run and must be
+    (venue account owner and mint bindings, obligation / spot-position checks, destination mints, ...; the deleverage
+    receiver = risk admin test is classified and interpreted since the deleverage bracket is modelled). Their normalised text is fingerprinted by the translator on every run and must be
     exactly this list (struct, account, fingerprint): an edit of any of them — dropped, weakened, pointed at another
     account — is a broken obligation even though no theorem speaks about its meaning. -/
 theorem unclassified_constraints_pinned :
@@ -167,7 +167,7 @@ theorem unclassified_constraints_pinned :
       [(.LendingPoolAddBankKamino, .f_integration_acc_1, 1294895318964715725), (.KaminoDeposit, .f_integration_acc_2, 102789841884831255),
        (.KaminoDeposit, .f_integration_acc_2, 2232305478470895852), (.KaminoWithdraw, .f_integration_acc_2, 2232305478470895852),
        (.KaminoWithdraw, .f_integration_acc_2, 102789841884831255), (.LendingAccountSettleEmissions, .f_marginfi_account, 1925430640847475726),
-       (.EndDeleverage, .f_liquidation_record, 800305038196698214), (.LendingPoolAddBankSolend, .f_integration_acc_1, 1481642461694787521),
+       (.LendingPoolAddBankSolend, .f_integration_acc_1, 1481642461694787521),
        (.SolendDeposit, .f_integration_acc_2, 1332785733999453949), (.SolendWithdraw, .f_integration_acc_2, 1332785733999453949),
        (.LendingPoolUpdateFeesDestinationAccount, .f_destination_account, 2287509815940661847), (.LendingPoolWithdrawFeesPermissionless, .f_fees_destination_account, 442390752958412362),
        (.PropagateStakedSettings, .f_bank, 192467567798966075), (.LendingPoolAddBankDrift, .f_integration_acc_1, 778144333709451630),
